@@ -10,7 +10,7 @@
    The classification is an argument; [ascii_word]/[ascii_digit] are Python's for code points
    below 128, [wordc_of]/[digitc_of] extend them by explicit lists (supplied by the harness
    for the non-ASCII characters of a case). *)
-From TxV Require Import Core.Base Model.PegSyntax Model.KwDefs Gen.SrcKw.
+From TxV Require Import Core.Base Model.PegSyntax Model.Peg Model.KwDefs Gen.SrcKw.
 
 (* ---------------------------------------------------------------- character classes *)
 Definition ascii_digit (c : N) : bool := (N.leb 48 c && N.leb c 57)%bool.
@@ -105,3 +105,112 @@ Definition kw_match (icase : bool) (t : list N) (input : list N) (p : nat) : opt
   then Some (length t) else None.
 
 End Cls.
+
+(* ---------------------------------------------------------------- tables *)
+(* all whitespace sets the interpreter can be in are subsets of this *)
+Definition ws_universe (g : grammar) (cfg : config) : list N :=
+  c_ws cfg ++ flat_map (fun nd => match n_ws nd with Some w => w | None => [] end) (g_nodes g).
+
+Definition kind_oid (k : kind) : option nat :=
+  match k with KStr _ (Some o) => Some o | KRegex o => Some o | _ => None end.
+
+(* every StrMatch of the table is an ignore_case one *)
+Definition all_str_icase (g : grammar) : bool :=
+  forallb (fun nd => match n_kind nd with KStr _ None => false | _ => true end) (g_nodes g).
+
+Definition oid_icase (oid : option nat) : bool := match oid with Some _ => true | None => false end.
+
+(* ---------------------------------------------------------------- decidable instance checks
+   (evaluated by the harness on every case: they decide, for the concrete tables / oracle tables /
+   texts of a case, the hypotheses of the theorems of Props/C20.v and Props/C21.v, positions
+   0..length of the text) *)
+Definition lower_of (pairs : list (N * N)) (c : N) : N :=
+  match find (fun pr => N.eqb (fst pr) c) pairs with
+  | Some pr => snd pr
+  | None => ascii_lower c
+  end.
+
+Definition opt_nat_eqb (a b : option nat) : bool :=
+  match a, b with
+  | Some x, Some y => Nat.eqb x y
+  | None, None => true
+  | _, _ => false
+  end.
+
+Definition memN (c : N) (l : list N) : bool := existsb (N.eqb c) l.
+Definition char_okb (U : list N) (a b : N) : bool :=
+  (N.eqb a b || (negb (memN a U) && negb (memN b U)))%bool.
+
+Fixpoint forall2b {A B} (f : A -> B -> bool) (l : list A) (l' : list B) : bool :=
+  match l, l' with
+  | [], [] => true
+  | x :: l1, y :: l1' => (f x y && forall2b f l1 l1')%bool
+  | _, _ => false
+  end.
+
+Definition kind_oids (g : grammar) : list nat :=
+  flat_map (fun nd => match kind_oid (n_kind nd) with Some o => [o] | None => [] end) (g_nodes g).
+
+Definition positions (input : list N) : list nat := seq 0 (S (length input)).
+
+Definition orcs_agree_b (input : list N) (orc orc' : nat -> nat -> option nat) (o o' : nat) : bool :=
+  forallb (fun p => opt_nat_eqb (orc' o' p) (orc o p)) (positions input).
+
+(* C20: hypotheses of C20_terminal_congruence / C20_invariant for one pair of texts *)
+Definition c20_hyp_b (lower : N -> N) (g : grammar) (cfg : config)
+           (orc orc' : nat -> nat -> option nat) (s s' : list N) : bool :=
+  (all_str_icase g &&
+   forall2b (char_okb (ws_universe g cfg)) s s' &&
+   forall2b (fun a b => N.eqb (lower a) (lower b)) s s' &&
+   forallb (fun o => orcs_agree_b s orc orc' o o) (kind_oids g))%bool.
+
+(* C21: the pair (plain table, autokwd table) for one text *)
+Section KwCheck.
+Variable wordc : N -> bool.
+Variable digitc : N -> bool.
+Variable lower : N -> N.
+Variable input : list N.
+Variables orc orc' : nat -> nat -> option nat.
+
+Definition kw_pair_ok (k k' : kind) : bool :=
+  match k, k' with
+  | KEOF, KEOF => true
+  | KStr t oid, KStr t' oid' =>
+    (str_eqb t t' &&
+     match oid, oid' with
+     | None, None => true
+     | Some o, Some o' => orcs_agree_b input orc orc' o o'
+     | _, _ => false
+     end)%bool
+  | KRegex o, KRegex o' => orcs_agree_b input orc orc' o o'
+  | KStr t oid, KRegex o' =>
+    (kw_like wordc digitc t &&
+     forallb (fun p => opt_nat_eqb (orc' o' p) (kw_match wordc lower (oid_icase oid) t input p))
+             (positions input) &&
+     match oid with
+     | Some o => forallb (fun p => opt_nat_eqb (orc o p) (str_match lower true t input p)) (positions input)
+     | None => true
+     end)%bool
+  | _, _ => false
+  end.
+
+Definition kw_tables_ok (g g' : grammar) : bool :=
+  forall2b (fun nd nd' =>
+              if is_match_kind (n_kind nd)
+              then (Bool.eqb (n_suppress nd') (n_suppress nd) && kw_pair_ok (n_kind nd) (n_kind nd'))%bool
+              else negb (is_match_kind (n_kind nd')))
+           (g_nodes g) (g_nodes g').
+
+(* no keyword-like literal of the plain table is immediately followed by a word character *)
+Definition no_glue_ok (g : grammar) : bool :=
+  forallb (fun nd =>
+             match n_kind nd with
+             | KStr t oid =>
+               if kw_like wordc digitc t
+               then forallb (fun p => (negb (lit_prefix lower (oid_icase oid) t (skipn p input))
+                                       || negb (word_at wordc input (p + length t)))%bool)
+                            (positions input)
+               else true
+             | _ => true
+             end) (g_nodes g).
+End KwCheck.
